@@ -88,6 +88,13 @@ def normalize_types(f):
             if o._reversed:
                 o = o._reverse()
 
+        elif f.__name__ not in _BYTEWISE_OPERATIONS:
+            # reversing the bytes does not commute with this operation (carries, ordering): reverse for real
+            if self._reversed:
+                self = self._reverse()
+            if o._reversed:
+                o = o._reverse()
+
         else:
             if not self._reversed and not o._reversed:
                 pass
@@ -116,6 +123,13 @@ def normalize_types(f):
                     if o._reversed:
                         o = o._reverse()
 
+                if reverse_back:
+                    # both operands are now reversed: operate on the stored values and reverse the result back
+                    self = self.copy()
+                    self._reversed = False
+                    o = o.copy()
+                    o._reversed = False
+
         ret = f(self, o)
         if isinstance(ret, StridedInterval):
             if isinstance(self, StridedInterval) and self.uninitialized:
@@ -128,6 +142,19 @@ def normalize_types(f):
 
     return normalizer
 
+
+# Operations that act on every byte (or on the value as a whole) independently, so that they may be carried out on
+# reversed operands and the result reversed back
+_BYTEWISE_OPERATIONS = {
+    "bitwise_and",
+    "bitwise_or",
+    "bitwise_xor",
+    "eq",
+    "union",
+    "_union",
+    "intersection",
+    "_multi_valued_intersection",
+}
 
 si_id_ctr = itertools.count()
 
@@ -902,7 +929,6 @@ class StridedInterval:
     def __rsub__(self, o):
         return StridedInterval(bits=self.bits, stride=0, lower_bound=o, upper_bound=o).sub(self)
 
-    @normalize_types
     def __mul__(self, o):
         return self.mul(o)
 
@@ -934,7 +960,6 @@ class StridedInterval:
             return StridedInterval.empty(self.bits)
         return StridedInterval.least_upper_bound(*all_resulting_intervals).normalize()
 
-    @normalize_types
     def __floordiv__(self, o: StridedInterval) -> StridedInterval:
         """
         Unsigned division
@@ -954,18 +979,15 @@ class StridedInterval:
     def __invert__(self) -> StridedInterval:
         return self.bitwise_not()
 
-    @normalize_types
     def __or__(self, other: StridedInterval) -> StridedInterval:
         return self.bitwise_or(other)
 
-    @normalize_types
     def __and__(self, other: StridedInterval) -> StridedInterval:
         return self.bitwise_and(other)
 
     def __rand__(self, other: StridedInterval) -> StridedInterval:
         return self.__and__(other)
 
-    @normalize_types
     def __xor__(self, other: StridedInterval) -> StridedInterval:
         return self.bitwise_xor(other)
 
